@@ -8,6 +8,7 @@ base=$(git merge-base main verif-$n)
 commits=$(git cherry main verif-$n $base | grep '^+' | cut -d' ' -f2)
 for c in $commits; do
   msg=$(git log -1 --format=%s $c)
+  case " $SKIP " in *" $(git rev-parse --short $c) "*) echo "SKIP (listed) $c"; continue;; esac
   case "$msg" in fix:*) ;; *) echo "SKIP non-fix commit $c: $msg"; continue;; esac
   if ! git cherry-pick $c >/dev/null 2>&1; then echo "CONFLICT cherry-picking $c: $msg"; git status --short | head; exit 3; fi
   echo "picked $(git rev-parse --short HEAD) <- $(git rev-parse --short $c) $msg"
